@@ -166,7 +166,7 @@ pub fn k_line_index() {
 }
 
 // ---------------------------------------------------------------------------------------------
-/// @harness id=k_insertion_bytes props=C11,C17 tier=quick unwind=24 mem=10 cap=900
+/// @harness id=k_insertion_bytes props=ATTEMPT tier=thorough unwind=24 mem=10 cap=900
 /// get_function_param_insertion_info on a one-line file of 5 symbolic ASCII bytes over the alphabet
 /// { '(' ')' ':' ' ' 'x' '#' }, function_line in 0..=2: no panic; a returned position lies on the line and points at
 /// a ')' that is followed by ':'.
@@ -210,7 +210,7 @@ macro_rules! fnp_case {
         (s == $start && e == $start + $name.len())
     }};
 }
-/// @harness id=k_fn_name_pos props=C15 tier=quick unwind=24 mem=6 cap=900
+/// @harness id=k_fn_name_pos props=C15 tier=quick unwind=30 mem=6 cap=900
 /// find_function_name_position on def-line templates, executed one after the other (concretely): plain, async,
 /// indented (spaces / tab), two spaces after def, a parameter equal to the name, the name occurring inside the
 /// letters of `def` / `async`: the span must be the name token.
@@ -227,7 +227,7 @@ pub fn k_fn_name_pos() {
     check!("k_fn_name_pos.name_d", fnp_case!("def d(): pass", "d", 4));
     reach!("k_fn_name_pos.end");
 }
-/// @harness id=k_fn_name_pos_tab props=C15 tier=quick unwind=24 mem=6 cap=900
+/// @harness id=k_fn_name_pos_tab props=C15 tier=quick unwind=30 mem=6 cap=900
 /// `def<TAB>f(f): pass` (a tab instead of the space after `def`): the span must still be the name token.
 #[cfg_attr(kani, kani::proof)]
 #[cfg_attr(kani, kani::stub(core::slice::memchr::memchr, stubs::memchr_bytewise))]
@@ -283,9 +283,9 @@ macro_rules! stale_arm {
         pub fn $id() { stubs::draw_uni_mask(); stale_query($text, $col) }
     };
 }
-/// @harness id=k_stale_spans_word props=C11 tier=quick unwind=20 mem=8 cap=900
+/// @harness id=k_stale_spans_word props=ATTEMPT tier=thorough unwind=20 mem=8 cap=900
 /// stale line `f\u{e9}\u{20ac}(x` (a word with a 2-byte and a 3-byte character), cursor on its first character; recorded spans symbolic.
 stale_arm!(k_stale_spans_word, "f\u{e9}\u{20ac}(x\n", 0);
-/// @harness id=k_stale_spans_after props=C11 tier=quick unwind=20 mem=8 cap=900
+/// @harness id=k_stale_spans_after props=ATTEMPT tier=thorough unwind=20 mem=8 cap=900
 /// stale line `\u{20ac}\u{e9} f(`: cursor on the `f` behind the multi-byte characters (char index 3, byte index 6).
 stale_arm!(k_stale_spans_after, "\u{20ac}\u{e9} f(\n", 3);
